@@ -2,7 +2,7 @@
 import itertools
 from .. import model, sweep
 from ..runner import Result
-from ..bridge import build, quiet, all_nodes, raw_leaves
+from ..bridge import build, quiet, all_nodes, raw_leaves, extract, compare_written
 
 from trees import transform
 
@@ -124,6 +124,16 @@ def check_one(mtj, op, relc, order=None):
                 bad('symetrify-placement', 'token %d (%r) was moved into %s which contains no other paired punctuation%s'
                     % (x.data['num'], x.data['word'], x.parent.data['label'],
                        '' if relc is None else ' and no token preceding a %s' % relc))
+    if moved and order is None and not out:
+        # the token order and structure as the user gets them from the writers
+        try:
+            shown = extract(t)
+            probs = compare_written(t, shown, model.mt_tree_gap_degree(shown.root) == 0,
+                                    fmts=('brackets', 'discobrackets'))
+        except Exception as e:
+            probs = ['%s: %s' % (type(e).__name__, e)]
+        if probs:
+            bad('written', '; '.join(probs))
     return out, len(moved)
 
 
